@@ -214,12 +214,49 @@ def structured_cases(rng: random.Random, scale: int = 1):
     return out
 
 
+WIDE_OPS = ("sum_simplify", "marginalize", "normalize_marginalize", "mul", "div")
+
+
+def mw_cases(rng: random.Random, scale: int = 1):
+    """multi-world joints (gen_expr.struct_mw_*): Sum.simplify on raw Sums over leaves whose children share a base variable
+    across worlds / value marks, in every relation between ranges and duplicated / single bases x {P, PP}; marginalize /
+    normalize_marginalize / conditional of such leaves and sums with ranges chosen relative to the expression; * and /
+    between them"""
+    out = []
+
+    def add(c):
+        c["seed"] = rng.randrange(1 << 30)
+        out.append(c)
+
+    for mode in GE.MW_MODES:
+        for pop in (False, GE.POPS[0]):
+            for _ in range(25 * scale):
+                e, lab = GE.struct_mw_sum(rng, rng.choice([3, 4, 4, 5]), mode=mode, pop=pop, wrap="none")
+                add({"op": "sum_simplify", "a": e, "gen": lab})
+    for op in ("marginalize", "normalize_marginalize", "conditional"):
+        for _ in range(60 * scale):
+            nn = rng.choice([3, 4, 4, 5])
+            a, lab = GE.struct_mw_expr(rng, nn)
+            if rng.random() < 0.5:
+                a, lab = GE.mw_leaf(rng, nn)[0], "mwleaf"
+            r, mode = GE.struct_ranges(rng, a, nn)
+            add({"op": op, "a": a, "r": r, "gen": lab, "rmode": mode})
+    for op in ("mul", "div"):
+        for _ in range(50 * scale):
+            nn = rng.choice([3, 4, 4, 5])
+            a, _ = GE.struct_mw_expr(rng, nn)
+            b, _ = GE.struct_mw_expr(rng, nn) if rng.random() < 0.6 else GE.struct_expr(rng, nn)
+            add({"op": op, "a": a, "b": b, "gen": "mwpair"})
+    return out
+
+
 def cases(rng: random.Random, tier: str):
     if os.environ.get("VERIF_EXPR_FAST_SEARCH") == "1":
         tier = "quick"      # tools/mutate_expr.py only: keeps the runner's extended search at the size of the quick stream
     out = _load_corpus()
     out += structured_cases(rng, 1 if tier == "quick" else 4)
     out += random_cases(rng, 6000 if tier == "quick" else 70000)
+    out += mw_cases(rng, 1 if tier == "quick" else 6)      # appended: the streams above are unchanged
     return out
 
 
@@ -375,8 +412,11 @@ def conditional_extra(case):
     return extra, sorted(kinds)
 
 
-def _judgeable(enc):
-    return GE.well_scoped(enc) and GE.zero_free_denominators(enc)
+def _judgeable(enc, wide=False):
+    """narrow: WellScoped (single-world leaves with distinct names); wide: WellScopedW (multi-world joints, children sharing
+    a base variable) - for the operators whose theorem holds there (WIDE_OPS: Sum.simplify after its repair, and the
+    operators that never look inside a leaf)"""
+    return (GE.well_scoped_mw(enc) if wide else GE.well_scoped(enc)) and GE.zero_free_denominators(enc)
 
 
 def _eval_spec(case, env, sigma, sstar, E):
@@ -427,9 +467,10 @@ def _single_child(enc):
 def _in_quantifier(case):
     op = case["op"]
     a = case["a"]
-    if not _judgeable(a):
+    wide = op in WIDE_OPS
+    if not _judgeable(a, wide):
         return False
-    if op in ("mul", "div") and not _judgeable(case["b"]):
+    if op in ("mul", "div") and not _judgeable(case["b"], wide):
         return False
     if op == "chain_expand":
         if case["reorder"] and case["ordering"] is not None:
@@ -472,8 +513,12 @@ def run_python(case):
         names = set(GE.all_names(case["a"])) | (set(GE.all_names(case["b"])) if "b" in case else set())
         names |= {int(v[1]) for v in case.get("r", [])}
         names = sorted(vname(n) for n in names)
-        for pk in rng.sample(range(E.N_SHARED), 2):
-            env = E.shared_env(pk)      # per-process pool of cached generic positive environments
+        is_wide = not (GE.well_scoped(case["a"]) and ("b" not in case or GE.well_scoped(case["b"])))
+        envs = [(pk, E.shared_env(pk)) for pk in rng.sample(range(E.N_SHARED), 2)]
+        if is_wide:      # multi-world joints: additionally a random functional SCM (shared noise across worlds)
+            fs = rng.randrange(1 << 30)
+            envs.append(("fscm", E.FscmEnv(fs, names, {n: rng.choice([2, 2, 3]) for n in names})))
+        for pk, env in envs:      # (shared: per-process pool of cached generic positive environments)
             seed = env.seed
             for _ in range(3):
                 sigma = E.random_valuation(rng, env, names)
@@ -491,7 +536,8 @@ def run_python(case):
             fail = f"chain_expand produced a factor that is not a single-child conditional: {res}"
     nontrivial = out[0] == "ok" and ((op in ("mul", "div") and GE.depth(case["a"]) >= 2 and GE.depth(case["b"]) >= 2)
                                      or (op not in ("mul", "div", "markov") and out[1] != X.to_str_tree(case["a"])))
-    tags = {"op": op, "outcome": out[0], "judged": inq, "gen": case.get("gen", "random").split(":")[0]}
+    tags = {"op": op, "outcome": out[0], "judged": inq, "gen": case.get("gen", "random").split(":")[0],
+            "judged_wide": bool(inq and not GE.well_scoped(case["a"])), "shared_base": GE.has_shared_base(case["a"])}
     if op == "frac_simplify":
         for f in GE.simplify_profile(case["a"]):
             tags["simplify_" + f] = True
